@@ -41,7 +41,7 @@ method; behaviours complete exactly once — `ok`, `fail`, `panic`, and `slow`/`
 (`Cfg.route`), the directory (`Cfg.dir`: name ↦ type and whether an actor lives
 behind the PID), JSON decoding (`Payload.valid v | undecodable`), result
 serialisation (`Result.data origin group method v` stands for the bytes of
-`{"s":origin,"m":method,"v":v}`), ids below 2^32 (`uint32(msg.ID)` is the identity).
+`{"s":origin,"m":method,"v":v}`).
 Delays are nominal milliseconds: the timeout is placed at 31000 (any instant in
 (30000, 31000] gives the same observations at the 5 s granularity of the harness);
 no delay is a multiple of 5 s, so nothing is due exactly when the harness observes.
@@ -233,12 +233,28 @@ def forward (fx : Fixes) (c : Cfg) (s : Sess) (msg : ClientMsg) (t : String) : L
       if msg.id = 0 then out.1                            -- sys.notify: ProcessForwardMsg(msg, nil)
       else out.1 ++ relay s msg out.2
 
-/-! ## `HandlerComponent.Process` -/
+/-! ## `HandlerComponent.Process` (on the `msgs.ClientMsg` envelope) -/
 
-def serveWith (fx : Fixes) (c : Cfg) (s : Sess) (msg : ClientMsg) : List Effect :=
+def processWith (fx : Fixes) (c : Cfg) (s : Sess) (msg : ClientMsg) : List Effect :=
   let p := splitClientRoute msg.route
   if p.1 ≠ c.frontType then forward fx c s msg p.1
   else serveLocal fx c s msg p.2.1 p.2.2
+
+def process (c : Cfg) (s : Sess) (msg : ClientMsg) : List Effect := processWith fixed c s msg
+
+/-! ## `SessionsImpl.ProcessMessage`: wire message → envelope
+
+`cmsg.ClientReqId = uint32(msg.ID)`: the request id the client sent (a varint, up to 64 bits) is
+truncated to the 32-bit protobuf field of the envelope.  Everything downstream — "is it a notify",
+the id of the response — sees the truncated id (known finding D19). -/
+
+def idWrap : Nat := 4294967296
+
+def envelope (msg : ClientMsg) : ClientMsg := { msg with id := msg.id % idWrap }
+
+/-- what the front does with one message read from a connection (`msg.id` is the id on the wire) -/
+def serveWith (fx : Fixes) (c : Cfg) (s : Sess) (msg : ClientMsg) : List Effect :=
+  processWith fx c s (envelope msg)
 
 def serve (c : Cfg) (s : Sess) (msg : ClientMsg) : List Effect := serveWith fixed c s msg
 
@@ -300,10 +316,11 @@ def run (fx : Fixes) (c : Cfg) : St → List Op → St
   | st, [] => st
   | st, op :: ops => run fx c (step fx c st op) ops
 
-/-- number of request messages (id ≠ 0 is up to the caller) with this id sent on this connection -/
+/-- number of messages sent on this connection whose id, as the envelope carries it (mod 2^32, D19),
+is `id` (id ≠ 0 is up to the caller); for wire ids below 2^32 that is the id itself -/
 def reqCount (conn id : Nat) : List Op → Nat
   | [] => 0
-  | .req s msg :: ops => (if s.sid = conn ∧ msg.id = id then 1 else 0) + reqCount conn id ops
+  | .req s msg :: ops => (if s.sid = conn ∧ msg.id % idWrap = id then 1 else 0) + reqCount conn id ops
   | .adv _ :: ops => reqCount conn id ops
 
 def wireCount (conn id : Nat) (l : List (Nat × Nat × Result)) : Nat :=
